@@ -32,7 +32,10 @@ def run_batch(g, tier, name, runs, out, acc):
     out["wall"]["judge"] = round(out["wall"].get("judge", 0) + time.time() - t0, 2)
     acc["runs"] += verdict["runs"]
     acc["events"] += verdict["events"]
-    byrun = {v["run"]: v for v in verdict["viol"]}
+    allby = {}
+    for v in verdict["viol"]:
+        allby.setdefault(v["run"], []).append(v)
+    byrun = {k: vs[0] for k, vs in allby.items()}      # the first violation of a run is the primary one
     tail_cmds = g.get("tail_cmds", ("settle", "drain"))
     for r in runs:
         v = byrun.get(r["run"])
@@ -49,6 +52,11 @@ def run_batch(g, tier, name, runs, out, acc):
         if v and len(acc["viols"]) < 5000:
             acc["viols"].append(dict(why=real, cfg=r["cfg"], cmds=r["cmds"], src=r.get("src", "random"),
                                      tokens=r.get("tokens")))
+            # further, different violations of the same run (reported under their own property unless
+            # the primary one is a listed known finding: what follows a known defect is not trusted)
+            for x in allby.get(r["run"], [])[1:]:
+                acc["viols"].append(dict(why=x["why"], cfg=r["cfg"], cmds=r["cmds"], src=r.get("src", "random"),
+                                         tokens=r.get("tokens"), primary=real))
     step = max(1, len(runs) // 2)
     for r in runs[::step][:2]:
         if len(acc["samples"]) < 8:
@@ -68,12 +76,14 @@ def run_model_group(g, tier, seed):
     out = dict(tlc=[], wall={})
     acc = dict(runs=0, events=0, agree=0, disagree=0, dis_samples=[], viols=[], samples=[])
     quota = g.get("quota", 350) if tier == "quick" else g.get("quota_thorough", 12000)
-    for name, cfg_text, module, decode, variants in g["configs"](tier):
+    for cfgt in g["configs"](tier):
+        name, cfg_text, module, decode, variants = cfgt[:5]
+        cquota = cfgt[5] if len(cfgt) > 5 else quota     # a configuration may ask to be replayed in full
         r = vlib.tlc(module, cfg_text, f"{g['name']}_{name}", workers=8 if tier == "quick" else 14, timeout=3000)
         if r.get("error"):
             out.setdefault("model_invariant_failures", []).append(dict(cfg=name, error=r["error"]))
         total = sum(1 for _ in vlib.prints(r["out"], "REPLAY"))
-        frac = min(1.0, quota / max(total, 1))
+        frac = min(1.0, cquota / max(total, 1))
         kept = nbad = 0
         runs = []
         for bad, hist in vlib.prints(r["out"], "REPLAY"):
@@ -144,18 +154,25 @@ def main():
 
 def report(prop, g, tier, seed, res, wall):
     known = vlib.load_known()
-    mine = [v for v in res["viols"] if v["why"].startswith(prop + ":")]
+    # violations the group's monitor files under a property that is decided by another group would
+    # otherwise be lost: every property of this group reports them
+    own = set(g.get("props", [prop]))
+    mine = [v for v in res["viols"] if v["why"].startswith(prop + ":") or v["why"].split(":")[0] not in own]
     new, seen_known = [], {}
     for v in mine:
+        if v.get("primary"):
+            pv = dict(v, why=v["primary"])
+            if vlib.match_known(known, v["primary"].split(":")[0], g["signature"](pv)):
+                continue
         sig = g["signature"](v)
-        k = vlib.match_known(known, prop, sig)
+        k = vlib.match_known(known, v["why"].split(":")[0], sig)
         if k:
             seen_known[k["signature"]] = (k, seen_known.get(k["signature"], (k, 0))[1] + 1)
         else:
             v["signature"] = sig
             new.append(v)
     for sig, (k, n) in seen_known.items():
-        print(f"KNOWN-FINDING: property={prop} {k['what']} ({n} occurrences this run)")
+        print(f"KNOWN-FINDING: property={k['property']} {k['what']} ({n} occurrences this run)")
     states = sum(t["distinct"] for t in res["tlc"])
     trans = sum(t["transitions"] for t in res["tlc"])
     cov = dict(
